@@ -186,7 +186,7 @@ func crowded(rw bool, used bool, crowd int, prog [][]acq, bound, raceBound int) 
 		}
 	}
 	return schk.Scenario{
-		Name: name, Bound: bound, RaceBound: raceBound,
+		Name: name, Bound: bound, RaceBound: raceBound, MaxSteps: 20000 + 200*crowd,
 		Body: func(s *vrt.Sched) any {
 			r := &rec{results: make([]string, len(prog))}
 			if rw {
@@ -356,17 +356,20 @@ func main() {
 			}
 		}
 		// many keys: the first use of key y happens when the map already holds 16/32/64/128/256 keys
-		for _, crowd := range []int{14, 30, 62, 126, 254} {
-			if !r.Thorough() && crowd > 126 {
-				continue
-			}
+		for _, crowd := range []int{14, 30, 62, 126, 254, 1022, 4094} {
 			for _, pp := range [][][]acq{
 				{{{"L", 0}}, {{"L", 1}, {"TL", 0}}},
 				{{{"L", 0}, {"L", 0}}, {{"L", 1}, {"L", 0}}},
 				{{{"TL", 0}}, {{"TL", 1}, {"L", 0}}},
 			} {
-				scs = append(scs, crowded(rw, false, crowd, pp, ev.Pick(r, 2, 3), -2))
+				b := ev.Pick(r, 2, 3)
+				if crowd > 254 {
+					b = ev.Pick(r, 1, 2)
+				}
+				scs = append(scs, crowded(rw, false, crowd, pp, b, -2))
 			}
+			// a hand-over (T0 releases x, T1 is waiting for it) while T2 uses key y for the first time
+			scs = append(scs, crowded(rw, false, crowd, [][]acq{{{"L", 0}}, {{"L", 0}}, {{"L", 1}, {"TL", 0}}}, ev.Pick(r, 1, 2), -2))
 			if rw {
 				scs = append(scs, crowded(rw, false, crowd, [][]acq{{{"RL", 0}}, {{"L", 1}, {"TRL", 0}, {"TL", 0}}}, ev.Pick(r, 2, 3), -2))
 			}
